@@ -3,6 +3,8 @@
 package cl
 
 import (
+	"strings"
+
 	"github.com/ohler55/slip"
 )
 
@@ -80,7 +82,8 @@ func (f *FindSymbol) Call(s *slip.Scope, args slip.List, depth int) (result slip
 	vv := p.GetVarVal(string(so))
 	switch {
 	case vv == nil:
-		fi := slip.FindFunc(string(so))
+		// Look in the package asked about, not in the current package.
+		fi := p.GetFunc(strings.ToLower(string(so)))
 		switch {
 		case fi == nil:
 			return slip.Values{nil, nil}
